@@ -6,3 +6,9 @@ def run(ctx):
     ctx.rule = ("same exploration as C03; judged: every Deferred returned to a client fires within 300 s of virtual time (back-off draws 1..4 s, polls 1 s) "
                 "and no node-level or qubit-level lock is held when the run ends; distinct = distinct (prefix, operations, first 60 scheduler choices)")
     concprop.run_property(ctx, "C04")
+    # sequential histories with refusals (capacity, unknown target, unsupported gate, forwarding to a full node): no node or qubit lock
+    # may outlive ANY operation, failed ones included (real PB for one program in five and for every scenario)
+    from props import netprop, scen
+    t = ctx.tier == "thorough"
+    netprop.run_property(ctx, "C04", ["refuse", "capacity", "merge"], 600 if t else 60, 24,
+                         scenarios=scen.refusals() + scen.forwarding() + scen.capacity(), own_props=["C04"], props_file=False)
